@@ -49,7 +49,7 @@ for d in sorted(glob.glob(ROOT + "/seeded/*/")):
     rows.append((name, detected))
 with open(ROOT + "/seeded/RESULTS.md", "w") as f:
     f.write("# Seeded changes and the checks that report them\n\n")
-    f.write("Each change was confirmed in a scratch worktree (compiles, `go vet` clean, the 326 existing tests pass with it, its demonstration fails with it and passes without it), then applied to /repo, checked, and undone.\n\n")
+    f.write("Each change was confirmed in a scratch worktree (compiles, `go vet` clean, the 326 existing tests pass with it, its demonstration fails with it and passes without it), then applied to a scratch worktree of /repo, checked with the check of the property it was written against, and undone.\n\n")
     f.write("| seed | check | reported | how | first detail |\n|---|---|---|---|---|\n")
     for name, det in rows:
         for c in det:
